@@ -51,4 +51,40 @@ CHECKS = {
         'technique': 'property-based testing (Hypothesis) against a reference model of the tolerance rule with '
                      'oracle-controlled samples',
     },
+    'C10': {
+        'text': 'Hypothesis trees over a confusable vocabulary judged against the generator\'s exact name sets; exhaustive '
+                'call sequences (length <= 3 quick, <= 4 thorough) over 13 strings x {parse, evaluator}, each run in a '
+                'forked pristine child and compared call-by-call with the same call made first in a fresh process and '
+                'with a freshly constructed MathParser; random longer sequences incl. FormulaGrader calls.',
+        'note': 'Pristine = process state right after importing the library (parser cache empty); isolation by fork.',
+        'technique': 'property-based testing (Hypothesis) + exhaustive enumeration of call histories; differential '
+                     'against a fresh process / fresh parser',
+    },
+    'C15': {
+        'text': 'Every default function of the Formula/Numerical/Matrix tables on exhaustive grids and Hypothesis points '
+                '(real, complex, near poles/cuts, huge/tiny), wrong arities and shapes, judged against mpmath/cmath '
+                'values, inverse identities and must-raise zones; constants by value.',
+        'note': 'Trusts mpmath at 40 digits; conditioning-aware tolerance; points keep >= 1e-6 relative distance from '
+                'cuts/poles unless exact must-raise poles; factorial excluded (no scipy).',
+        'technique': 'property-based testing (Hypothesis) + exhaustive grids against a multiprecision reference',
+    },
+    'C19': {
+        'text': 'Exhaustive limit pairs in [-12,12]^2 x parity with a bit-mask summand, exhaustive error-input pools x '
+                'input_positions subsets, and Hypothesis sums (renamed/shifted/reversed/perturbed variants, infinite '
+                'limits with cutoffs) judged against a Python reference sum with scripted samples.',
+        'note': 'Trusts the reference summation; tolerance guard band discarded; IntegralGrader/factorials need scipy.',
+        'technique': 'property-based testing (Hypothesis) + exhaustive enumeration against a reference sum; metamorphic '
+                     'sum-preserving transformations',
+    },
+    'C20': {
+        'text': 'Option tables transcribed from the documentation for 36 classes: exhaustive single-option deviations '
+                '(in- and out-of-domain pools), cross-option rule scenarios, all 288 SquareMatrices combinations, '
+                'documented equivalences, and Hypothesis multi-option combinations and answers formats; judged on '
+                'constructor acceptance, error family, filled defaults, canonical answers, kwargs/dict equivalence and '
+                're-validation round trip.',
+        'note': 'The option tables are a hand transcription of docs/doc-strings; values the docs do not settle are in '
+                'neither pool (listed in DESIGN).',
+        'technique': 'exhaustive enumeration + property-based testing (Hypothesis) against a documented-domain model; '
+                     'round-trip oracle',
+    },
 }
